@@ -354,6 +354,14 @@ pub fn gen_program(r: &mut Rng, budget: usize, depth: usize) -> (String, std::co
         .to_vec();
         g.bump("confusable_name_pool");
     }
+    // `_G` as a global the program uses (global_usage) and, sometimes, binds itself
+    if g.r.chance(1, 6) {
+        g.globals.push("_G");
+        if g.r.chance(1, 3) {
+            g.names.push("_G");
+        }
+        g.bump("uses_G");
+    }
     let p = g.program();
     (p, g.stats)
 }
